@@ -14,8 +14,8 @@
      jls_raw_rd_payload             rp_raw_rd_payload
      jls_raw_chunk_seek / _seek_end rp_chunk_seek / rp_seek_end
      jls_core_rd_chunk              rp_rd_chunk
-     jls_core_rd_chunk_end          rp_rd_chunk_end  (incl. the candidates it never tests and the unsigned
-                                                 underflow of its last window: RpF_segv)
+     jls_core_rd_chunk_end          rp_rd_chunk_end  (windows of 1024 bytes stepping by 992; the unsigned underflow for a
+                                                 window shorter than a header is kept as RpF_segv: no longer reachable)
      jls_core_scan_initial          rp_scan_initial
      jls_core_scan_sources          rp_scan_sources  (jls_buf_rd_skip / jls_buf_rd_str as far as success or
                                                  failure is concerned)
@@ -261,12 +261,13 @@ Fixpoint rp_end_loop (fuel : nat) (s : rp_io) (end_pos length : N) : rp_io * N :
         let cs := rp_cands (N.to_nat (length1 / 8)) 1 (rp_skip 8 d) [] in
         let '(s3, found) := rp_try_cands s2 pos cs in
         if found then (s3, 0)
-        else rp_end_loop fu s3 (pos + SIZEOF_chunk_header - 8) length1
+        else if pos =? 0 then (s3, JLS_ERROR_NOT_FOUND)             (* whole file scanned (since /repo 966bf8c) *)
+        else rp_end_loop fu s3 (pos + SIZEOF_chunk_header) length1  (* overlap by a full header: offset pos is the next window's top candidate *)
     else (s, JLS_ERROR_NOT_FOUND)
   end.
 Definition rp_rd_chunk_end (s : rp_io) : rp_io * N :=
   let end_pos := (rp_fend (rp_r s) / 8) * 8 in
-  rp_end_loop (S (S (S (N.to_nat (end_pos / 1000))))) s end_pos end_pos.
+  rp_end_loop (S (S (S (N.to_nat (end_pos / 992))))) s end_pos end_pos.
 
 (* ---- signals ---- *)
 Record rp_sig := {
